@@ -17,6 +17,7 @@ From LV Require Import Proofs.SpellingNumProofs Proofs.SpellingObjProofs Proofs.
 From LV Require Model.Utf Proofs.LoadsFrameProofs Proofs.LoadsTableProofs Proofs.LoadsStreamProofs Proofs.LoadsFilterProofs.
 From LV Require Model.LoaderExt Model.StreamFilt Spec.StreamCodecSpec Model.Png Proofs.ObjStmSpellProofs Proofs.LengthRefProofs Gen.SaveFmt Proofs.LoadsRefLenProofs Proofs.ObjStmFilterProofs.
 From LV Require Proofs.LoadsLoopProofs Proofs.LoadsObjStmProofs Proofs.LoadsObjStmFile Proofs.LoadsObjStmWhole Proofs.LoadsFullProofs Proofs.LoaderExtProofs.
+From LV Require Proofs.LoadsMultiProofs Proofs.LoadsMultiFull Proofs.LoadsMultiExample.
 Local Open Scope N_scope.
 
 (* (1) Cross-reference streams.  For ALL field widths (0 = field absent, any positive width, not all three
@@ -1221,6 +1222,66 @@ Definition C02_loads_multi_partial : Prop :=
                 d_version d = a_version a /\
                 (forall id o, lookup (content a) id = Some o -> exists o', lookup (d_objects d) id = Some o' /\ same_value o o').
 
+(* ---------------------------------------------------------------------------------------------
+   FILES OF SEVERAL SECTIONS, the writer-specific half for cross-reference TABLES (Proofs/LoadsMultiProofs.v, LoadsMultiFull.v):
+   every part of ref_write_multi = objects, a table with its trailer (Size so far, Prev = the section of the part before),
+   startxref, %%EOF -- the layout of a file that was appended to.  A part lists the objects it holds, may list objects of
+   EARLIER parts again (mp_relist: the entry they have, taken from the merge so far), and may hold SUPERSEDED definitions
+   (mp_old: same number and generation as an object whose current definition is in a LATER part); the sub-sections of every
+   part are the style's own (any sectioning that covers what the part defines) or the maximal runs; every part has its own
+   end-of-lines, fillers, object order and startxref block; bytes before the header, comments holding "%%EOF" / "startxref"
+   as in C02_loads_table_partial.  Loading the file yields the version and EXACTLY the objects the document defines, each with
+   the value it defines (same_value against [content a]): the superseded bodies, which are in the file and are listed by the
+   section of their own part, are NOT delivered; an object listed again keeps its definition; nothing is added.
+   Proof: the invariant LoadsMultiProofs.Inv is carried along write_parts -- the sections written so far form a chain
+   (chain_ok: each decodes, at its offset in the prefix followed by ANY bytes, to the table its sub-sections denote and a
+   trailer whose Prev names the section before); [known] is the merge of that chain; an entry of the merge whose number no
+   remaining part defines names the CURRENT definition at the byte where it starts; every current object of a finished part
+   has an entry -- then C02_load_chain_frame on the merged table (C02_prev_chain, C02_merge_newest_wins).
+   THE DOMAIN [C02_multi_domain_table st parts a file]:
+   * every part uses the table format and there are no object streams (cross-reference STREAM parts, mixed chains and object
+     streams across parts: see C02_loads_multi_partial below);
+   * [top_ok] per object: the data model's types, the two open findings' classes, nesting <= MAX_DEPTH, Length direct;
+   * [trailer_dom]: the trailer (the document's entries, Size, Prev) is spelled legally in the part's trailer style whatever
+     u32 values Size and Prev take; the document's trailer holds none of Size / Prev / Encrypt / XRefStm;
+   * object numbers and the file length fit u32; the version is UTF-8; the first section starts beyond byte 25 and the last
+     part's startxref block keeps "startxref" within Reader::get_xref_start's 25-byte window for every offset inside the file.
+   --------------------------------------------------------------------------------------------- *)
+Definition C02_multi_domain_table (st : fstyle) (parts : list mpart) (a : adoc) (file : bytes) : Prop :=
+  s_ostms st = [] /\
+  Forall (fun p => exists t, mp_xref p = XTable t /\ LoadsMultiProofs.trailer_dom a t) parts /\
+  Forall LoadsTableProofs.top_ok (LoadsTableProofs.tops st a) /\ Utf.utf8_decode (a_version a) <> None /\
+  (dict_get (a_trailer a) RefWriter.K_Size = None /\ dict_get (a_trailer a) K_Prev = None /\
+   dict_get (a_trailer a) K_Encrypt = None /\ dict_get (a_trailer a) K_XRefStm = None) /\
+  1 + max_num (map (fun io => fst (fst io)) (a_objs a)) <= u32_max /\ blen file <= u32_max /\
+  match parts with
+  | p :: _ => 25 < LoadsMultiProofs.p_xpos st a p (blen (RefWriter.header st (a_version a)))
+  | [] => True
+  end /\
+  (forall lastp xs, last_part parts = Some lastp -> xs <= blen file ->
+     (9 + length (LoadsTableProofs.sx_mid (s_sx_eol1 (with_part st lastp true)) (s_sx_sp1 (with_part st lastp true)) xs
+                    (s_sx_sp2 (with_part st lastp true)) (s_sx_eol2 (with_part st lastp true))) <= 25)%nat).
+
+Theorem C02_loads_multi_table :
+  forall (st : fstyle) (parts : list mpart) (a : adoc) (file : bytes),
+    C02_multi_domain_table st parts a file -> ref_write_multi st parts a = Some file ->
+    exists d, LoaderExt.load_ext LoadsFilterProofs.decompress_ref LoadsFilterProofs.can_ref file = LOk d XTTable /\
+              d_version d = a_version a /\
+              (forall id, match lookup (d_objects d) id, lookup (content a) id with
+                          | Some o, Some o' => same_value o' o
+                          | None, None => True
+                          | _, _ => False
+                          end).
+Proof. exact (LoadsMultiFull.loads_multi_table_full LoadsFilterProofs.decompress_ref LoadsFilterProofs.can_ref). Qed.
+
+(* non-vacuity: two parts.  Part 1 holds object 3 and a SUPERSEDED definition of object 7, three sub-sections; part 2 holds the
+   current object 7 and lists object 3 again, two sub-sections, Prev; bytes before the header, comments, padded startxref *)
+(* the example lives in Proofs/LoadsMultiExample.v (ex_fstyle / ex_adoc as above, ex_parts_m the two parts) *)
+Theorem C02_example_loads_multi_table :
+  exists file, ref_write_multi LoadsMultiExample.ex_fstyle LoadsMultiExample.ex_parts_m LoadsMultiExample.ex_adoc = Some file /\
+               C02_multi_domain_table LoadsMultiExample.ex_fstyle LoadsMultiExample.ex_parts_m LoadsMultiExample.ex_adoc file.
+Proof. exact LoadsMultiExample.example_loads_multi_table. Qed.
+
 (* non-vacuity of C02_full: the object-stream example (stream format) and the Length-reference example (table format)
    are in the domain *)
 Theorem C02_example_full :
@@ -1363,6 +1424,8 @@ Print Assumptions C02_prev_chain.
 Print Assumptions C02_merge_newest_wins.
 Print Assumptions C02_load_chain_frame.
 Print Assumptions C02_full_over_load.
+Print Assumptions C02_loads_multi_table.
+Print Assumptions C02_example_loads_multi_table.
 Print Assumptions C02_example_full.
 Print Assumptions C02_example_loads_table.
 Print Assumptions C02_example_object.
